@@ -35,7 +35,7 @@ pub const METHODS: [&str; 10] = ["POST", "GET", "PUT", "DELETE", "HEAD", "OPTION
 /// index -> version; 0..=2 are the versions the statement speaks about
 pub const VERSIONS: [&str; 5] = ["HTTP/1.1", "HTTP/2", "HTTP/1.0", "HTTP/0.9", "HTTP/3"];
 /// 0..=3: the four grpc-web content-types (0,1 binary; 2,3 text); the rest is "anything else"
-pub const CONTENT_TYPES: [Option<&str>; 10] = [
+pub const CONTENT_TYPES: [Option<&str>; 14] = [
     Some("application/grpc-web"),
     Some("application/grpc-web+proto"),
     Some("application/grpc-web-text"),
@@ -46,6 +46,12 @@ pub const CONTENT_TYPES: [Option<&str>; 10] = [
     Some("text/plain"),
     Some("application/octet-stream"),
     None,
+    // 10..=13: letter-case variants of grpc-web types (10, 11 text; 12, 13 binary). Media types are
+    // case-insensitive, tonic matches them exactly: either reading is fine, but it must be consistent
+    Some("application/grpc-web-Text"),
+    Some("Application/Grpc-Web-Text+Proto"),
+    Some("application/GRPC-WEB"),
+    Some("application/grpc-Web+proto"),
 ];
 pub const PASS_STATUS: [u16; 5] = [200, 204, 404, 415, 500];
 
@@ -239,6 +245,8 @@ fn row() -> BoxedStrategy<(u8, u8, u8)> {
         1 => (0u8..=9, prop_oneof![Just(0u8), Just(2u8)], 4u8..=9),
         // pass-through
         2 => (0u8..=9, Just(1u8), 4u8..=9),
+        // letter-case variants of the grpc-web content-types
+        1 => (Just(0u8), 0u8..=2, 10u8..=13),
     ]
     .boxed()
 }
@@ -546,7 +554,62 @@ fn first_diff(a: &[u8], b: &[u8]) -> String {
 
 // ------------------------------------------------------------------ run
 
+/// A content-type that differs from a grpc-web one only in letter case. Two readings are consistent with
+/// the statement: (A) "not grpc-web" - 400 on HTTP/1, untouched pass-through on HTTP/2; (B) "grpc-web" - the
+/// full translation of the matching mode. Rewriting the content-type without translating the body is neither.
+fn run_case_variant(c: &Case, o: &mut Outcome) -> Result<(), Failure> {
+    o.label("row_content_type_case_variant");
+    o.nontrivial = true;
+    let text = c.req_ct <= 11;
+    let rb = build(&c.req, true);
+    let req_wire: Vec<u8> = if text { wire::b64_encode(&rb.grpc, true).into_bytes() } else { rb.grpc.clone() };
+    let req_body = EosBody::new(steps_of(&[req_wire.clone()], &[], None), false);
+    let ct = CONTENT_TYPES[c.req_ct as usize].unwrap();
+    let req = Request::builder().method(Method::POST).version(version_of(c.version)).uri(c.path.as_str()).header("content-type", ct).body(req_body).expect("request");
+    let resp_body = EosBody::new(steps_of(&[], &[], Some(header_map(&c.trailers))), false);
+    let mut inner_resp = Response::builder().status(200).body(resp_body).unwrap();
+    inner_resp.headers_mut().insert("content-type", HeaderValue::from_static("application/grpc"));
+    let inner = Inner { seen: Arc::new(Mutex::new(None)), resp: Arc::new(Mutex::new(Some(inner_resp))), calls: Arc::new(AtomicUsize::new(0)), fut_pend: 0 };
+    let mut svc = tonic_web::GrpcWebLayer::new().layer(inner.clone());
+    let _ = poll_budget(4, |cx| <tonic_web::GrpcWebService<Inner> as Service<Request<EosBody>>>::poll_ready(&mut svc, cx));
+    let mut fut = Box::pin(svc.call(req));
+    let resp = match poll_budget(16, |cx| fut.as_mut().poll(cx)) {
+        Err(_) => bail!("C16/response-future-stuck", "response future did not complete (content-type {ct:?})"),
+        Ok(Err(e)) => match e {},
+        Ok(Ok(r)) => r,
+    };
+    drop(fut);
+    let calls = inner.calls.load(Ordering::Relaxed);
+    let seen = inner.seen.lock().unwrap().take();
+    if calls == 0 {
+        // reading (A) on HTTP/1: refused
+        ensure!(c.version != 1 && resp.status().as_u16() == 400, "C16/content-type-case-variant-inconsistent", "content-type {ct:?} over {}: inner service not called, answered {}", VERSIONS[c.version as usize], resp.status());
+        return Ok(());
+    }
+    let (parts, body) = seen.expect("inner request recorded").into_parts();
+    let got: Vec<u8> = drain(body, 64, false).into_iter().filter_map(|f| if let Fr::Data(d) = f { Some(d) } else { None }).flatten().collect();
+    let seen_ct: Vec<Vec<u8>> = parts.headers.get_all("content-type").iter().map(|v| v.as_bytes().to_vec()).collect();
+    let untouched = seen_ct == vec![ct.as_bytes().to_vec()] && got == req_wire;
+    let translated = seen_ct == vec![b"application/grpc".to_vec()] && got == rb.grpc;
+    o.label_if(untouched, "case_variant_passed_through");
+    o.label_if(translated, "case_variant_translated");
+    ensure!(
+        (untouched && c.version == 1) || translated,
+        "C16/content-type-case-variant-inconsistent",
+        "content-type {ct:?} over {}: the inner service saw content-type {:?} and {} body bytes - neither the untouched request ({} bytes) nor the translated gRPC bytes ({} bytes)",
+        VERSIONS[c.version as usize],
+        seen_ct.iter().map(|v| String::from_utf8_lossy(v).into_owned()).collect::<Vec<_>>(),
+        got.len(),
+        req_wire.len(),
+        rb.grpc.len()
+    );
+    Ok(())
+}
+
 pub fn run(c: &Case, o: &mut Outcome) -> Result<(), Failure> {
+    if c.req_ct >= 10 {
+        return run_case_variant(c, o);
+    }
     let exp = expect(c.method, c.version, c.req_ct);
     let accurate = c.eos != 0;
     let honor = c.eos == 1;
